@@ -23,7 +23,7 @@ pub proof fn lemma_wait_fact_stable(id: PartId, r: crate::rpc::WaitRes, a: Node,
 //@ closure 0
 //@ cparams p: &ListsendpaysPayments
 //@ creturns o: Option<Secret>
-//@ ensures#projects_the_preimage [C15]
+//@ ensures#projects_the_preimage [C15,C16,C01]
       o == p.payment_preimage
 //@ ghost before_stmt /^let mut $tasks = FuturesUnordered::new\(\);/
       let ghost PL = $pending.payments.v@; let ghost n0 = *n;
@@ -34,7 +34,7 @@ pub proof fn lemma_wait_fact_stable(id: PartId, r: crate::rpc::WaitRes, a: Node,
       && node_wf(*n) && node_rely(n0, *n) && node_rely(*old(n), *n) && n.hash == payment_hash
       && $tasks.view().len() == it.index@
       && (forall|j: int| 0 <= j < $tasks.view().len() ==> (#[trigger] $tasks.view()[j]).0 == part_id(PL[j]) && crate::rpc::wait_fact($tasks.view()[j].0, $tasks.view()[j].1, *n))
-//@ invariant#every_pending_part_is_in_the_pending_listing [C15]
+//@ invariant#every_pending_part_is_in_the_pending_listing [C15,C16,C02,C05,C08]
       forall|id: PartId| #![trigger n.pending.contains(id)] n.pending.contains(id) ==> listed(PL, id)
 //@ invariant#no_part_completed_unseen_between_the_two_listings [C15,C02,C05,C08,C16,C03]
 //    a completed part is either reported by the completed-listing (then we returned its preimage)
